@@ -16,12 +16,29 @@ import (
 
 // C11 — each received message is processed once; handlers may call back.
 
+// c11Corpus: tapes of runs worth keeping (minimised by the shrinker). A tape is only a witness for as long as the
+// scenario draws what it drew when the tape was recorded; a stale entry is an ordinary run.
+var c11Corpus = [][]uint32{
+	// thorough tier, seed 43, run 1319529: the connection's message-ID counter jumps back (two requests of the peer with
+	// IDs near it), a nested observe registration gets the ID of a ping that has been answered but whose call has not
+	// returned yet; the ping's cancel function then removes the registration's continuation by that ID
+	{0, 0, 0, 7, 0, 2, 0, 0, 0, 0, 0, 3, 0, 0, 0, 7, 0, 5, 9, 8, 6, 0, 8, 6, 0, 8, 0, 0, 5, 8, 9, 0, 4, 4, 0, 0, 0, 0, 13},
+}
+
 func init() {
 	Register(&PropDef{
 		ID:    "C11",
 		Title: "Each received message is processed once; handlers may call back",
 		Rule: "S-NEST/server-depth: on a connection of a real udp server that was given WithLimitClientParallelRequest / WithLimitClientEndpointParallelRequest (0, 2 or 4) the peer asks /d3, the handler asks the peer /d2, the peer asks /d1 before it answers, that handler asks /d0 - two requests of the server outstanding on one connection, everything answered at once; otherwise: a scripted peer sends up to 12 requests to one real connection (UDP, DTLS shim, TCP, TLS shim; receive queue 0/1/16) whose handlers return at once or perform a nested blocking operation on the same connection (request, observe registration, observation cancel, ping, confirmable one-way write), to nesting depth 1-3; the peer answers nested operations when the tape says so; duplicates of a request that is still inside its handler (datagram), park points inside the reader-loop replacement protocol, connection close at any point; in S-ORDER the reader loop is first replaced 0-2 times by requests of application goroutines while a non-blocking handler is about to run, then a burst of 2-4 messages arrives while the reader is parked between queue and handler; " +
 			"non-trivial = at least one handler blocked in a nested operation while another message arrived; distinct = distinct event-log hash",
+		// witness schedules found by the thorough tier, replayed as the first run indices of every batch
+		ExhaustN: len(c11Corpus),
+		Exhaust: func(idx int) ([]uint32, bool) {
+			if idx >= len(c11Corpus) {
+				return nil, false
+			}
+			return c11Corpus[idx], true
+		},
 		Scenarios: []Scenario{{Name: "S-NEST", Weight: 3, Run: c11Run}, {Name: "S-ORDER/after-loop-replacement", Weight: 1, Run: c11OrderRun},
 			{Name: "S-SERVER/shared-socket-reader", Weight: 1, Run: c11ServerRun},
 			{Name: "S-NEST/request-limiter", Weight: 1, Run: c11LimitedRun},
